@@ -713,6 +713,16 @@ def run_file(res, origin, raw, desc, rng, per_file):
         if res.counters["roundtrips_compared"] % 701 == 1:
             res.sample({"file": origin, "attribute": e.path, "new_value": repr(e.value)[:100], "saved_before_looking": save_first})
         d = snapshot.diff(build.norm(S1, "before"), build.norm(S2, "after"))
+        if d and e.coupled and "/payload/mappings[" in e.path:
+            # re-pointing exposed controller k at another target changes what slot k STANDS FOR: after the next load its stored
+            # number is read in the new target's kind (True -> 1, -77 -> 51 ...).  That slot's typed value is not compared.
+            try:
+                k_ = int(e.path.rsplit("[", 1)[1].rstrip("]")) + 1
+                own = e.path.rsplit("/payload/mappings[", 1)[0]
+                d = [x for x in d if not (x[0].startswith(own) and x[0].endswith((f"/controllers/user_defined_{k_}", f"/user_defined_{k_}")))]
+                res.count("mapping_edits_with_retyped_slot_ignored")
+            except ValueError:
+                pass
         if d:
             first = d[0]
             kind = "edit-lost" if first[0].startswith(e.path) or e.path.startswith(first[0]) else "other-changed"
